@@ -108,9 +108,21 @@ func scenarios(thorough bool) []Scenario {
 		u.Name, u.UnknownRes, u.Ticks = n+"/unknown-resource", true, 6
 		out = append(out, u)
 	}
+	// a whole group is put back (connection acquisition fails) while the receive queue is full and callers are waiting to send
+	for _, n := range names {
+		if len(streams[n]) < 3 && !thorough || len(streams[n]) < 2 {
+			continue
+		}
+		x := base
+		x.Name, x.Reqs, x.Callers, x.ChanSize, x.WorkerBuf, x.BufferLimit, x.Fault, x.FaultAt, x.Ticks = n+"/pressure+connect-fails", streams[n], 2, 1, 1, 3, "connect", 0, 6
+		out = append(out, x)
+		y := x
+		y.Name, y.Fault, y.UnknownRes = n+"/pressure+unknown-resource", "", true
+		out = append(out, y)
+	}
 	if !thorough {
 		for i := range out {
-			if strings.HasPrefix(out[i].Name, "shared-ids") || strings.HasPrefix(out[i].Name, "one") {
+			if strings.HasPrefix(out[i].Name, "shared-ids") || strings.HasPrefix(out[i].Name, "one") || strings.Contains(out[i].Name, "/pressure+") {
 				out[i].Bound = 1
 			}
 		}
